@@ -21,7 +21,8 @@ OBLIGATIONS = ["NiftyVerif.C23." + t for t in (
     "owner_invariant", "tree_value", "tree_leaves", "tree_eval_sum", "matched_pair_is_one_event",
     "projection_deadlock_free", "runs_bounded", "schedule_independent", "maximal_run_exists",
     "allreduce_all_schedules", "serial_eq_distributed", "serial_program", "compound_messages_ordered",
-    "whoOf_lt", "full_protocol_deadlock_free", "full_protocol_schedule_independent", "full_allreduce_all_schedules")]
+    "whoOf_lt", "full_protocol_deadlock_free", "full_protocol_schedule_independent", "full_allreduce_all_schedules",
+    "matched_kinds_agree", "calls_are_expanded_projection", "dtype_detection_order_independent")]
 RULE = ("case = (ordered partition `counts` of n summands over p ranks incl. empty ranks, payload kind, summand values); "
         "thorough: ALL partitions with n<=8, p<=4 for every kind, quick: all with n<=5,p<=3 (float) + a sample; "
         "non-trivial = at least one cross-rank transfer; distinct by (counts, kind)")
